@@ -601,7 +601,14 @@ def _removes(e, J, p):
     """does the removal event e remove job J?  remove(J) / pop(index of the element found identical to J)"""
     a = e.d["args"]
     if q.call_name(e) == "remove":
-        return a == (J,)
+        if a == (J,):
+            return True
+        # remove(x) after `x is J` was established
+        if len(a) == 1:
+            for t, val, b in q.atoms(p):
+                if val is True and b.seq < e.seq and isinstance(t, tuple) and t[0] == "cmp" and t[1] == "is" and {t[2], t[3]} == {a[0], J}:
+                    return True
+        return False
     if q.call_name(e) == "pop" and len(a) == 1:
         idx = a[0]
         if not (isinstance(idx, tuple) and idx[0] in ("index", "unpack")):
@@ -730,6 +737,8 @@ class OpRoles(object):
                     dones.add(t[2])
                 dv = q.deref(p, v) if isinstance(v, tuple) else v
                 if isinstance(dv, tuple) and dv[0] in ("dict", "comp") and P0 is not None and (dv[0] == "dict" or (len(dv) > 3 and P0 in dv[3])):
+                    rests.add(t[2])
+                elif isinstance(dv, tuple) and dv[0] == "call" and dv[1] in (("name", "dict"), ("ext", "collections.OrderedDict")) and P0 is not None and contains(dv, P0):
                     rests.add(t[2])
             for e in p.evs("store"):
                 t = e.d["target"]
